@@ -5,6 +5,7 @@ set -u
 SLOT=$1; shift
 WT=/tmp/wt/slot$SLOT; V=/tmp/evalverif$SLOT
 [ -d $WT ] || git -C /repo worktree add --detach $WT HEAD >/dev/null 2>&1
+git -C $WT checkout -q -- . ; git -C $WT clean -fdq; git -C $WT checkout -q --detach $(git -C /repo rev-parse HEAD)
 rm -rf $V; mkdir -p $V; rsync -a --exclude .git --exclude .build --exclude replays --exclude seeded /verif/ $V/
 sed -i "s#=> /repo#=> $WT#" $V/sim/go.mod
 for M in "$@"; do
